@@ -352,7 +352,7 @@ def restart_target(uid, d2='X', *, dk=0, kind='ok'):
         return [uid, d2, dk, SlowBox(uid, 0.7)]
     if kind == 'block':
         # one blocking call: a termination request is only noticed when it returns
-        time.sleep(0.6)
+        time.sleep(0.4)
     if kind == 'swallow1':
         # ignores the first termination request only
         n = 0
